@@ -225,19 +225,44 @@ class Program:
                 raw[p.stem] = ast.parse(p.read_text(), filename=str(p))
             except SyntaxError as e:
                 raise AnalysisError(f"{p.name} does not parse: {e}")
+        trees = {}
         for p in files:
             text = p.read_text()
             tree = ast.parse(text, filename=str(p))
             if not os.environ.get("SA_NO_NORMALISE"):
                 try:
-                    from .normalize import import_private_helpers
+                    from .normalize import import_private_helpers, import_private_methods
                     shared = import_private_helpers(tree, raw, PKG)
+                    shared += import_private_methods(tree, raw, PKG, p.stem)
                     self.normalised[p.stem] = normalise_module(tree)
                     if shared:
                         self.normalised[p.stem]["helpers_copied_from_other_modules"] = shared
                 except RecursionError as e:  # pragma: no cover
                     raise AnalysisError(f"{p.name}: normalisation failed: {e}")
-            m = ModuleInfo(p.stem, p, tree, text)
+            trees[p.stem] = (p, tree, text)
+        if not os.environ.get("SA_NO_NORMALISE"):
+            # a private module-level function that no module of the package names any more (every importer inlined its copy)
+            # is dead code of the normal form
+            named = set()
+            for _, tree, _ in trees.values():
+                for n in ast.walk(tree):
+                    if isinstance(n, ast.Name) and isinstance(n.ctx, ast.Load):
+                        named.add(n.id)
+                    elif isinstance(n, ast.Attribute):
+                        named.add(n.attr)
+                    elif isinstance(n, (ast.ImportFrom, ast.Import)):
+                        for a in n.names:
+                            named.add(a.name.split(".")[-1])
+                    elif isinstance(n, ast.Constant) and isinstance(n.value, str) and n.value.isidentifier():
+                        named.add(n.value)      # __all__, getattr(..., "name")
+            for stem, (p, tree, text) in trees.items():
+                dead = [st for st in tree.body if isinstance(st, ast.FunctionDef) and st.name.startswith("_") and not st.name.startswith("__")
+                        and st.name not in named and not st.decorator_list]
+                if dead:
+                    tree.body = [st for st in tree.body if not any(st is d for d in dead)]
+                    self.normalised.setdefault(stem, {})["dead_private_functions_dropped"] = [d.name for d in dead]
+        for stem, (p, tree, text) in trees.items():
+            m = ModuleInfo(stem, p, tree, text)
             self._index_module(m)
             self.modules[m.name] = m
         self._dtype_cache = {}
